@@ -34,6 +34,7 @@ EXTENDS Integers, Sequences, FiniteSets, TLC
 CONSTANTS MaxLen,        \* whole-line generator: maximal length of the input
           NameLen,       \* C11: maximal length of the varying (seed) component
           PairLen,       \* C11: maximal length of the second varying component (tag value, second key, string value)
+          LongLen,       \* C11: family L, maximal length of the long components over the reduced alphabet (>= 3)
           SecLen,        \* section-wise generator: maximal length of a key/tag/measurement section
           ValLen,        \* section-wise generator: maximal length of the field value section
           BatchLen       \* batch generator: maximal number of lines
@@ -560,14 +561,28 @@ Points11(fam, x) ==     \* x: the seed component chosen in the root state (a nam
                          vs \in {<<Fld(<<>>, "float", <<C1>>), Fld(<<>>, "string", HvS)>>,
                                  <<Fld(<<>>, "string", HvS), Fld(<<>>, "int", <<C1>>)>>,
                                  <<Fld(<<>>, "bool", <<"t","r","u","e">>), Fld(<<>>, "string", <<CM, EQ>>)>>}}
-Init11 == mode \in Families11 /\ line \in Names(NameLen) /\ inp = None /\ exp = None
-GenPoint == /\ exp = None /\ mode \in Families11
-            /\ \E p \in Points11(mode, line) : inp' = p /\ exp' = Expect11(p)
+\* family L: one long component (length 3 over {a \ space = ,}, length 4..LongLen over {a \ space =}) in every position, so
+\* that every shape "literal backslash before an ordinary character, then a delimiter" and "delimiter, then literal
+\* backslash" occurs (escape.IsEscaped / AppendUnescaped / Unescape / unescapeTag must look past the first backslash)
+LongNames == (IF LongLen >= 3 THEN {s \in SeqsUpTo({CA, BS, SP, EQ, CM}, 3) : Len(s) = 3} ELSE {})
+             \cup {s \in SeqsUpTo({CA, BS, SP, EQ}, LongLen) : Len(s) >= 4}
+PointsL(x) == {Pt(x, <<>>, SimpleFields, <<C1>>),
+               Pt(<<CA>>, <<TagRec(x, <<CA>>)>>, SimpleFields, <<C1>>),
+               Pt(<<CA>>, <<TagRec(<<CA>>, x)>>, SimpleFields, <<C1>>),
+               Pt(<<CA>>, <<>>, <<Fld(x, "float", <<C1>>)>>, <<C1>>),
+               Pt(<<CA>>, <<>>, <<Fld(x, "string", HvS), Fld(<<CA>>, "int", <<C1>>)>>, <<C1>>),
+               Pt(<<CA>>, <<>>, <<Fld(<<CA>>, "string", x)>>, <<C1>>)}
+AllFamilies11 == Families11 \cup {"L"}
+Init11 == /\ \/ mode \in Families11 /\ line \in Names(NameLen)
+             \/ mode = "L" /\ line \in LongNames
+          /\ inp = None /\ exp = None
+GenPoint == /\ exp = None /\ mode \in AllFamilies11
+            /\ \E p \in (IF mode = "L" THEN PointsL(line) ELSE Points11(mode, line)) : inp' = p /\ exp' = Expect11(p)
             /\ UNCHANGED <<mode, line>>
 Next11 == GenPoint
 
 \* C11 on the model: inside the class every point and key round-trips; a constructed point is readable
-Inv11 == mode \in Families11 /\ exp # None =>
+Inv11 == mode \in AllFamilies11 /\ exp # None =>
             /\ (exp.inClass => exp.rt)
             /\ (exp.inClassKey => exp.keyrt)
             /\ (exp.ctorClass => exp.ctor)
@@ -664,7 +679,45 @@ GenTime == /\ exp = None /\ mode = "P"
            /\ \E p \in Precisions, b \in {"Min", "Zero", "Max"}, k \in {-2, -1, 0, 1, 2} :
                 inp' = [precision |-> p, mult |-> Mult(p), base |-> b, k |-> k] /\ exp' = [accept |-> TimeVerdict(b, k)]
            /\ UNCHANGED <<mode, line>>
-NextP == GenPad \/ GenTime
+\* far from the boundaries: literal tokens (digits as integers), the verdict by decimal-string arithmetic - the
+\* multipliers are powers of ten, so token * Mult(p) is the token followed by Expo(p) zeros; accepted iff the magnitude is
+\* at most 9223372036854775806 = MaxNanoTime = -MinNanoTime (parseIntBytes accepts leading zeros)
+Expo(p) == CASE p = "ns" -> 0 [] p = "us" -> 3 [] p = "ms" -> 6 [] p = "s" -> 9
+NanoLimit == <<9,2,2,3,3,7,2,0,3,6,8,5,4,7,7,5,8,0,6>>
+RECURSIVE StripZeros(_)
+StripZeros(d) == IF Len(d) > 1 /\ d[1] = 0 THEN StripZeros(Tail(d)) ELSE d
+RECURSIVE LexLE(_, _)
+LexLE(x, y) == IF x = <<>> THEN TRUE ELSE IF x[1] < y[1] THEN TRUE ELSE IF x[1] > y[1] THEN FALSE ELSE LexLE(Tail(x), Tail(y))
+MagLE(x, y) == Len(x) < Len(y) \/ (Len(x) = Len(y) /\ LexLE(x, y))          \* x, y without leading zeros
+Representable(d, p) == LET m == StripZeros(d) IN
+                       IF m = <<0>> THEN TRUE ELSE MagLE(m \o [i \in 1..Expo(p) |-> 0], NanoLimit)
+FarTokens == {[neg |-> FALSE, d |-> <<9, 2, 2, 3, 3, 7, 2, 0, 3, 6, 8, 5, 4, 7, 7, 5, 8, 0, 9>>],
+              [neg |-> FALSE, d |-> <<9, 2, 2, 3, 3, 7, 2, 0, 3, 6, 8, 5, 4, 7, 7, 5, 8, 1, 0>>],
+              [neg |-> FALSE, d |-> <<9, 2, 2, 3, 3, 7, 2, 0, 3, 6, 8, 5, 4, 7, 7, 5, 8, 1, 7>>],
+              [neg |-> FALSE, d |-> <<9, 9, 9, 9, 9, 9, 9, 9, 9, 9, 9, 9, 9, 9, 9, 9, 9, 9, 9>>],
+              [neg |-> FALSE, d |-> <<1, 8, 4, 4, 6, 7, 4, 4, 0, 7, 3, 7, 0, 9, 5, 5, 1, 6, 1, 5>>],
+              [neg |-> FALSE, d |-> <<1, 8, 4, 4, 6, 7, 4, 4, 0, 7, 3, 7, 0, 9, 5, 5, 1, 6, 1, 6>>],
+              [neg |-> FALSE, d |-> <<1, 0, 0, 0, 0, 0, 0, 0, 0, 0, 0, 0, 0, 0, 0, 0, 0, 0, 0>>],
+              [neg |-> FALSE, d |-> <<9, 2, 2, 3, 3, 7, 2, 0, 3, 6, 8, 5, 4, 7, 7, 5, 8, 0, 6>>],
+              [neg |-> TRUE, d |-> <<9, 2, 2, 3, 3, 7, 2, 0, 3, 6, 8, 5, 4, 7, 7, 5, 8, 0, 9>>],
+              [neg |-> TRUE, d |-> <<9, 2, 2, 3, 3, 7, 2, 0, 3, 6, 8, 5, 4, 7, 7, 5, 8, 1, 0>>],
+              [neg |-> TRUE, d |-> <<9, 9, 9, 9, 9, 9, 9, 9, 9, 9, 9, 9, 9, 9, 9, 9, 9, 9, 9>>],
+              [neg |-> TRUE, d |-> <<9, 2, 2, 3, 3, 7, 2, 0, 3, 6, 8, 5, 4, 7, 7, 5, 8, 0, 6>>],
+              [neg |-> TRUE, d |-> <<1, 8, 4, 4, 6, 7, 4, 4, 0, 7, 3, 7, 0, 9, 5, 5, 1, 6, 1, 6>>],
+              [neg |-> FALSE, d |-> <<0, 0, 0, 0, 0, 0, 0, 0, 0, 0, 0, 0, 0, 0, 0, 0, 0, 0, 0, 1>>],
+              [neg |-> FALSE, d |-> <<0, 9, 2, 2, 3, 3, 7, 2, 0, 3, 6, 8, 5, 4, 7, 7, 5, 8, 0, 6>>],
+              [neg |-> FALSE, d |-> <<0, 9, 2, 2, 3, 3, 7, 2, 0, 3, 6, 8, 5, 4, 7, 7, 5, 8, 0, 7>>],
+              [neg |-> FALSE, d |-> <<0, 0, 0, 0, 0, 0, 0, 0, 0, 0, 9, 2, 2, 3, 3, 7, 2, 0, 3, 6>>],
+              [neg |-> FALSE, d |-> <<0, 0, 0, 0, 9, 2, 2, 3, 3, 7, 2, 0, 3, 6, 8, 5, 4, 7, 7, 5>>],
+              [neg |-> TRUE, d |-> <<0, 0, 0, 0, 0, 0, 0, 0, 0, 0, 0, 0, 0, 0, 0, 0, 0, 0, 0, 1>>],
+              [neg |-> TRUE, d |-> <<0, 9, 2, 2, 3, 3, 7, 2, 0, 3, 6, 8, 5, 4, 7, 7, 5, 8, 0, 7>>],
+              [neg |-> FALSE, d |-> <<0, 0, 0, 0, 0, 0, 0, 0, 0, 0, 0, 0, 0, 0, 0, 0, 0, 0, 0, 0, 0, 0>>],
+              [neg |-> FALSE, d |-> <<1, 2, 3, 4, 5, 6, 7, 8, 9, 0, 1, 2, 3>>]}
+GenFarTime == /\ exp = None /\ mode = "P"
+              /\ \E p \in Precisions, t \in FarTokens :
+                   inp' = [precision |-> p, mult |-> Mult(p), neg |-> t.neg, digits |-> t.d] /\ exp' = [accept |-> Representable(t.d, p)]
+              /\ UNCHANGED <<mode, line>>
+NextP == GenPad \/ GenTime \/ GenFarTime
 
 \* C12 on the model
 NoUnmodelled == (mode \in ({"A", "C"} \cup SecsAll) /\ exp # None) => ~exp.unmodelled
